@@ -15,7 +15,7 @@ import (
 
 // kinds for which the extracted FAITHFUL model (not only the spec) is compared:
 // raw observations, also outside the contract.
-var rawKinds = map[string]bool{"plain": true}
+var rawKinds = map[string]bool{"plain": true, "batched": true}
 
 func isQuery(o op) bool { return o.Kind == "Q" || o.Kind == "RRS" || o.Kind == "GS" }
 
